@@ -24,8 +24,8 @@ EPS32 = float(np.finfo(np.float32).eps)
 
 
 def plan(tier, seed):
-    return [{"shard": i, "reps": 12 if tier == "quick" else 400, "n_hankel": 2 if tier == "quick" else 12,
-             "n_sets": 4 if tier == "quick" else 120} for i in range(16)]
+    return [{"shard": i, "reps": 12 if tier == "quick" else 8000, "n_hankel": 2 if tier == "quick" else 60,
+             "n_sets": 4 if tier == "quick" else 2000} for i in range(16)]
 
 
 def arg_class(rng, r):
